@@ -185,7 +185,7 @@ def gen_compare(ctx, r, auto=False):
     pacts = [0] + [1 if r.g.has_action(i) else 0 for i in range(len(r.g.prods))]
     path = os.path.join(r.dir, "gen.in")
     with open(path, "w") as f:
-        f.write("%d %d %d\n%s\n%s\n%s\n%s\n" % (len(nts), len(terms), terr, prods, " ".join(sym(s) for s in d["symbols"]),
+        f.write("%d %d %d\n%s\n%s\n%s\n%s\n" % (len(nts), len(terms), terr, prods, " ".join(sym(s) for s in d["symbols"] if s in ni or s in ti),
                                                  " ".join(map(str, la)), " ".join(map(str, pacts))))
     p = subprocess.run([ctx.modelrun, "genauto" if auto else "gen", path], capture_output=True, text=True, timeout=600)
     lines = p.stdout.split("\n")
